@@ -21,8 +21,14 @@ COV = {"gcd": ["coprime", "common-factor"], "lcm": ["lcm-overflows", "lcm-fits"]
 
 def harnesses():
     out = []
+    # probed in a background run (4 jobs, shared machine): every function at 1-4 bits (40-500 s); at 5/6/8 bits matrix 90-230 s,
+    # gcd 633 s (5 bits) and 1569 s (8), lcm 851 s (5), gcd_extended 855 s (5); lcm at 6 bits 2235 s, gcd_extended at 8 bits out of
+    # memory - only what finished comfortably is registered
+    KEEP = {"gcd": [1, 2, 3, 4, 5, 8], "lcm": [1, 2, 3, 4, 5], "gcd_extended": [1, 2, 3, 4, 5], "matrix": [1, 2, 3, 4, 5, 6, 8]}
     for b in [1, 2, 3, 4, 5, 6, 8]:
         for fn in ["gcd", "lcm", "gcd_extended", "matrix"]:
+            if b not in KEEP[fn]:
+                continue
             cov = [c for c in COV[fn] if not (b == 1 and c in ("coprime", "common-factor", "lcm-overflows", "lcm-fits", "sign-true"))]
             if b == 2:
                 cov = [c for c in cov if c not in ("common-factor", "lcm-fits")]
